@@ -273,7 +273,7 @@ impl Check for C20 {
         out
     }
     fn rule() -> &'static str {
-        "Each run draws one workload per listed operation: a composable (1/10 mismatching) pair for composition and tensor, a functor spec, a small optic workload, an arbitrary dense/layered diagram for layering and the structural predicates, an evaluable circuit with an input vector, a morphism workload (valid or with one corruption). Everything runs on VecKind, on the simulated device with all decisions VecLike (control), and under 8 fixed perturbed schedules (each of sort_ties / cc_numbering / sparse_keys / scatter_fill perturbed alone with random decisions; all kinds Reverse; all Rotate; all ByLargest; all Random) plus 0-2 extra swarm-drawn ones. Oracle: diagram results (compose, tensor, functor image, optic image, adapted optic) isomorphic to Vec's; compose definedness, unvisited flags, evaluation output, is_acyclic / is_monogamous / degrees, HypergraphArrow::new outcome (incl. the named variant) / is_monomorphism / is_convex_subgraph identical to Vec's; every layering valid by C15's oracle. Non-trivial iff a diagram has a node; distinct = distinct (workload fingerprint, device decision fingerprint)."
+        "Each run draws one workload per listed operation: a composable (1/10 mismatching) pair for composition and tensor, a functor spec, a small optic workload, an arbitrary dense/layered diagram for layering and the structural predicates, an evaluable circuit with an input vector (in 1/3 of the runs with a wire that is read but never written: its value is unspecified but must not depend on the backend), a morphism workload (valid or with one corruption). Everything runs on VecKind, on the simulated device with all decisions VecLike (control), and under 8 fixed perturbed schedules (each of sort_ties / cc_numbering / sparse_keys / scatter_fill perturbed alone with random decisions; all kinds Reverse; all Rotate; all ByLargest; all Random) plus 0-2 extra swarm-drawn ones. Oracle: diagram results (compose, tensor, functor image, optic image, adapted optic) isomorphic to Vec's; compose definedness, unvisited flags, evaluation output, is_acyclic / is_monogamous / degrees, HypergraphArrow::new outcome (incl. the named variant) / is_monomorphism / is_convex_subgraph identical to Vec's; every layering valid by C15's oracle. Non-trivial iff a diagram has a node; distinct = distinct (workload fingerprint, device decision fingerprint)."
     }
     fn assumptions() -> Vec<&'static str> {
         vec![
